@@ -168,6 +168,12 @@ func c13Workloads(tier string) []c13Workload {
 				q("SELECT a.id FROM MID a WHERE EXISTS (SELECT 1 FROM t300 b WHERE b.v = a.v AND b.k = a.k)"), q("SELECT id, (SELECT MAX(b.v) FROM t300 b WHERE b.k = a.k) AS m FROM MID a WHERE v IN (SELECT v FROM t300 WHERE k = 3)")}},
 		{Name: "subquery-outer-refs", Sites: "correlated subqueries whose goroutines share the field-index cache of the outer record (reference_scope.go)",
 			Queries: []string{"SELECT id, (SELECT COUNT(*) FROM t300 b WHERE b.v = a.v OR b.k = a.k OR b.id = a.id OR b.s = a.s) AS c FROM t300 a WHERE id < 60"}},
+		{Name: "functions", Sites: "built-in functions with process-wide state evaluated in worker goroutines: RAND (shared generator), regular expression and datetime-format caches, NOW, JSON_VALUE, user-defined scalar functions",
+			Queries: []string{q("SELECT COUNT(*) FROM BIG WHERE RAND() < 0.5"), q("SELECT id, RAND(1, 100) AS r FROM BIG WHERE k < 10"),
+				q("SELECT id, REGEXP_REPLACE(s, '[aeiou]', '_') AS a, REGEXP_MATCH(s, '^b') AS b, REGEXP_FIND(s, '[a-c]+') AS c FROM BIG"),
+				q("SELECT id, DATETIME_FORMAT(ADD_DAY(DATETIME('2012-02-03 09:18:15'), v), '%Y/%m/%d %H') AS d, FORMAT('%05d|%s', v, s) AS f, NOW() AS n FROM BIG WHERE k > 5"),
+				q("SELECT id, JSON_VALUE('a.b', '{\"a\":{\"b\":' || v || '}}') AS j, MD5(s) AS h, DATETIME('2020-01-0' || (k % 9 + 1)) AS d FROM BIG WHERE v < 40"),
+				q("DECLARE FUNCTION f13 (x, y) AS BEGIN IF x IS NULL THEN RETURN y; END IF; RETURN x * 2 + y; END; SELECT id, f13(v, k) AS u FROM BIG WHERE f13(k, 1) > 4")}},
 		{Name: "cancel", Sites: "loaders and worker loops while the context is cancelled", Special: "cancel",
 			Queries: []string{q("SELECT a.id, b.id FROM BIG a JOIN t2000 b ON a.v = b.v AND a.id < b.id")}},
 		{Name: "signal", Sites: "lib/cli commandAction: the signal goroutine and the read of signalReceived", Special: "signal",
